@@ -1,5 +1,5 @@
 (* Proofs about the serde decoder/encoder models of Serde.v (statements use SerdeSpec.v). *)
-From OA Require Import Bytes Json Json_proofs ErrorCodes Serde SerdeSpec.
+From OA Require Import Bytes Json Json_proofs Lower Lower_proofs ErrorCodes Serde SerdeSpec.
 From Coq Require Import ZArith Lia Permutation.
 
 (* ========================================================================= *)
@@ -160,13 +160,8 @@ Proof.
     + rewrite join_cons2 in *. rewrite <- IH. reflexivity.
 Qed.
 
-Lemma lower_byte_idem c : lower_byte (lower_byte c) = lower_byte c.
-Proof. destruct c as [[] [] [] [] [] [] [] []]; reflexivity. Qed.
-
-Lemma lower_idem s : lower (lower s) = lower s.
-Proof.
-  unfold lower. rewrite map_map. apply map_ext. intros c. apply lower_byte_idem.
-Qed.
+Lemma lower_idem s : lower_tt (lower_tt s) = lower_tt s.
+Proof. apply lower_tt_idem. Qed.
 
 (* ========================================================================= *)
 (* 2. infrastructure: skipping a member, field decoders, encoder lists         *)
@@ -331,21 +326,21 @@ Lemma d_interval_of_N n : u64_ok n = true -> d_interval (JInt (Z.of_N n)) = Some
 Proof. intros H. apply d_u64_of_N in H. exact H. Qed.
 
 Lemma d_token_type_inv j t :
-  d_token_type j = Some t -> exists s, j = JStr s true /\ t = token_type_from_str (lower s).
+  d_token_type j = Some t -> exists s, j = JStr s true /\ t = token_type_from_str (lower_tt s).
 Proof.
   destruct j as [| | | |s [|]| |]; cbn [d_token_type]; try discriminate.
   intros H. injection H as <-. exists s. auto.
 Qed.
 
-Lemma tt_canon_from_str s : tt_canon (token_type_from_str (lower s)) = true.
+Lemma tt_canon_from_str s : tt_canon (token_type_from_str (lower_tt s)) = true.
 Proof.
   unfold token_type_from_str.
-  destruct (bytes_eqb (lower s) (s2b "bearer")) eqn:E1; [reflexivity|].
-  destruct (bytes_eqb (lower s) (s2b "mac")) eqn:E2; [reflexivity|].
+  destruct (bytes_eqb (lower_tt s) (s2b "bearer")) eqn:E1; [reflexivity|].
+  destruct (bytes_eqb (lower_tt s) (s2b "mac")) eqn:E2; [reflexivity|].
   cbn [tt_canon]. rewrite lower_idem, bytes_eqb_refl, E1, E2. reflexivity.
 Qed.
 
-Lemma tt_roundtrip t : tt_canon t = true -> token_type_from_str (lower (token_type_as_ref t)) = t.
+Lemma tt_roundtrip t : tt_canon t = true -> token_type_from_str (lower_tt (token_type_as_ref t)) = t.
 Proof.
   destruct t as [| |s]; try reflexivity.
   cbn [tt_canon token_type_as_ref]. intros H.
@@ -834,7 +829,7 @@ Qed.
 Theorem token_fields m t :
   decode_token ef (JObj m) = Some t ->
   find_key (s2b "access_token") m = Some (JStr (tr_access t) true) /\
-  (exists s, find_key (s2b "token_type") m = Some (JStr s true) /\ tr_type t = token_type_from_str (lower s)) /\
+  (exists s, find_key (s2b "token_type") m = Some (JStr s true) /\ tr_type t = token_type_from_str (lower_tt s)) /\
   match find_key (s2b "expires_in") m with
   | None | Some JNull => tr_expires t = None
   | Some (JInt z) => tr_expires t = Some (Z.to_N z) /\ (0 <= z <= U64MAXZ)%Z
@@ -873,8 +868,8 @@ Theorem token_not_object j : (forall m, j <> JObj m) -> decode_token ef j = None
 Proof. intros H. destruct j; try reflexivity. exfalso. eapply H. reflexivity. Qed.
 
 Theorem token_type_case_insensitive s :
-  d_token_type (JStr s true) = Some (token_type_from_str (lower s)) /\
-  d_token_type (JStr (lower s) true) = d_token_type (JStr s true).
+  d_token_type (JStr s true) = Some (token_type_from_str (lower_tt s)) /\
+  d_token_type (JStr (lower_tt s) true) = d_token_type (JStr s true).
 Proof. split; [reflexivity|]. cbn [d_token_type]. rewrite lower_idem. reflexivity. Qed.
 
 End Token.
@@ -886,7 +881,7 @@ Lemma opt_tt_field n m o :
   optm d_opt_token_type None [n] m = Some o ->
   match find_key n m with
   | None | Some JNull => o = None
-  | Some (JStr s true) => o = Some (token_type_from_str (lower s))
+  | Some (JStr s true) => o = Some (token_type_from_str (lower_tt s))
   | Some _ => False end.
 Proof.
   rewrite optm1. destruct (find_key n m) as [j|]; [|congruence].
@@ -1156,7 +1151,7 @@ Theorem introspection_fields m r :
   (forall s, find_key (s2b "sub") m = Some (JStr s true) -> ir_sub r = Some s) /\
   (forall s, find_key (s2b "iss") m = Some (JStr s true) -> ir_iss r = Some s) /\
   (forall s, find_key (s2b "jti") m = Some (JStr s true) -> ir_jti r = Some s) /\
-  (forall s, find_key (s2b "token_type") m = Some (JStr s true) -> ir_token_type r = Some (token_type_from_str (lower s))) /\
+  (forall s, find_key (s2b "token_type") m = Some (JStr s true) -> ir_token_type r = Some (token_type_from_str (lower_tt s))) /\
   (forall z, find_key (s2b "exp") m = Some (JInt z) -> ir_exp r = Some z /\ (TS_MIN <= z <= TS_MAX)%Z) /\
   (forall z, find_key (s2b "iat") m = Some (JInt z) -> ir_iat r = Some z) /\
   (forall z, find_key (s2b "nbf") m = Some (JInt z) -> ir_nbf r = Some z) /\
